@@ -33,9 +33,16 @@ TrOp == /\ Is("Op")
 
 TrTick == Is("Tick") /\ clock' = clock + 1 /\ l' = l + 1 /\ UNCHANGED <<viol, store, div, last>>
 
+\* Held [be, what, same]: an answer already given is a value, not a view - the driver keeps every list / hash answer
+\* it received and compares it again after all later operations; an answer that changed afterwards shares memory
+\* with the store (a sequential map with value semantics cannot do that)
+TrHeld == /\ Is("Held")
+          /\ viol' = viol \cup (IF Ev.same THEN {} ELSE {V("Aliased", Ev.be \o ":" \o Ev.what)})
+          /\ l' = l + 1 /\ UNCHANGED <<store, clock, div, last>>
+
 TrEnd == /\ Is("End") /\ EmitVerdict
          /\ l' = l + 1 /\ viol' = {} /\ store' = Fresh /\ clock' = 0 /\ div' = FALSE /\ last' = "init"
 
-Next == TrOp \/ TrTick \/ TrEnd
+Next == TrOp \/ TrTick \/ TrHeld \/ TrEnd
 Spec == Init /\ [][Next]_vars
 =============================================================================
